@@ -1,5 +1,6 @@
 pub mod c01;
 pub mod c02;
+pub mod c13;
 pub mod mpc_common;
 
 use crate::ctx::Ctx;
@@ -8,6 +9,7 @@ pub fn dispatch(ctx: &mut Ctx) -> bool {
     match ctx.prop.as_str() {
         "C01" => c01::run(ctx),
         "C02" => c02::run(ctx),
+        "C13" => c13::run(ctx),
         _ => return false,
     }
     true
